@@ -18,6 +18,7 @@ EXPLANATION = (
     "it; the method strings map to the four counters with a raising default; completed=False is passed exactly at the three non-completion hand-overs; the guards whose "
     "failure mode is an exception (has-server predicate, decide_preempt sibling guard, removal index) are consistent. Absence of all other internal errors (user "
     "callbacks, malformed parameters accepted by validation) is not decided.")
+EXPLANATION += (" Added later: " "outside the node classes a node's server list is read only under a finite-c test of that node; in the exact views no raw operator mixes a may-Decimal with a may-Float operand (shared with C20).")
 RULE = "instances = attribute reads on all protocol paths x configuration valuations of each class view; loop/table/flag sites of simulation.py"
 
 NODE_PHASE_A = ("accept", "update_next_event_date", "have_event", "wrap_up_servers", "find_server_utilisation", "write_baulking_or_rejection_record")
